@@ -185,7 +185,8 @@ Begin(w, h, e, a) ==          \* QueueProcessor._handle_message -> handler.handl
 
 Return(w) ==                  \* the handler returned normally: nothing owed, nothing unpublished, no open transaction
   /\ ~Idle(w) /\ cur[w].owes = <<>> /\ pend[w] = <<>> /\ ~tx[w].open
-  /\ cur[w].pc \in {"run", "post", "done", "claimed"}      \* never between a BEFORE-recording and its state commit
+  /\ cur[w].pc \in {"run", "post", "done"}   \* never between a BEFORE-recording and its state commit, nor between
+                                             \* claim and plan (that needs a concurrent writer: ConcurrencyError, Raise)
   /\ SetCur(w, IdleCur)
   /\ act' = Label("Return", w, FALSE)
   /\ UNCHANGED <<prog, status, ev, tx, pend, bus, wr, done, cnt>>
@@ -492,10 +493,13 @@ Matches(r, X) == \A x \in X : View(r, x) = status[x]
 Quiet == AllIdle /\ cnt.crashes = 0
 C12_ReplayMatches == Quiet => Matches(Replay(ev), RegularEnts \ CanceledTasks)
 C12_ReplayMatchesCanceledTasks == Quiet => Matches(Replay(ev), CanceledTasks)
+(* rebuilding as of sequence n = replaying exactly the events up to it; a snapshot taken at p plus the
+   later events = the full replay.  Statements about the log: checked for the logs of the idle states
+   (every other log is a prefix of one of them) *)
 C12_Prefix ==
-  \A n \in 0..LastSeq(ev) :
+  AllIdle => \A n \in 0..LastSeq(ev) :
      RebuildAsOf(n) = Replay(SubSeq(ev, 1, Cardinality({i \in DOMAIN ev : ev[i].seq <= n})))
-C12_Snapshot == \A p \in 0..LastSeq(ev) : \A n \in p..LastSeq(ev) : FromSnapshot(p, n) = RebuildAsOf(n)
+C12_Snapshot == AllIdle => \A p \in 0..LastSeq(ev) : FromSnapshot(p, LastSeq(ev)) = Replay(ev)
 
 TypeOK ==
   /\ \A x \in DOMAIN status : status[x] \in AllSt
